@@ -36,7 +36,7 @@ def main():
         print('%-40s paths=%d obligations=%d discharged=%d %.2fs' % (con.target, ex.paths, len(res), len(res) - len(bad), time.time() - t1))
         for r in res:
             if a.v or r.status != 'unsat':
-                print('   %-7s %-70s %.2fs %s' % (r.status, r.name, r.time, r.solver))
+                print('   %-7s %-70s %.2fs %s %s' % (r.status, r.name, r.time, r.solver, (r.reason or '')[:80]))
                 if r.status == 'sat' and r.model:
                     for kk, vv in sorted(r.model.items())[:40]:
                         print('        %s = %s' % (kk, vv))
